@@ -3,7 +3,7 @@
 From Coq Require Import List ZArith NArith Bool Permutation Sorted.
 From Coq.Strings Require Import Byte.
 Import ListNotations.
-From SV Require Import Text C16_StableSort C16_Model C16_Lemmas.
+From SV Require Import Text C16_StableSort C16_Model C16_Lemmas C16_More.
 
 (* filter: exactly the elements satisfying all conditions, in input order; the receiver is replaced only with inplace *)
 Theorem C16_filter_spec : forall inplace conds objs, forallb (cond_ok objs) conds = true ->
@@ -196,6 +196,171 @@ Theorem C16_noninplace_steps_pure : forall cur conds ks t code b, N.ltb code 8 =
 Proof. exact noninplace_pure. Qed.
 Print Assumptions C16_noninplace_steps_pure.
 
+
+(* ---------------------------------------------------------------- round 6 *)
+(* THE stable sort: any list that is sorted and in which every class of tied elements keeps the order it had in l is
+   isort le l -- so the theorems above characterise the result of sort completely *)
+Theorem C16_stable_sort_unique : forall (le : elem -> elem -> bool) l l', preorder le -> sorted le l' ->
+  (forall a, filter (eqv le a) l' = filter (eqv le a) l) -> l' = isort le l.
+Proof. exact (fun le l l' Hp => stable_sort_unique le Hp l l'). Qed.
+Print Assumptions C16_stable_sort_unique.
+
+(* reverse=True: the stable sort by the flipped order = reverse . stable sort . reverse ... *)
+Theorem C16_sort_reverse_law : forall ks objs,
+  m_sort ks true objs = rev (m_sort ks false (rev objs)) /\
+  (forall (le : elem -> elem -> bool) l, preorder le -> isort (flip_le le) l = rev (isort le (rev l))).
+Proof. exact (fun ks objs => conj (sort_reverse_law ks objs) (fun le l Hp => isort_flip_rev le l Hp)). Qed.
+Print Assumptions C16_sort_reverse_law.
+
+(* ... which is not the reversed ascending sort: tied elements keep their input order *)
+Theorem C16_sort_reverse_is_not_reversed_sort : exists ks objs, wf_C16 (RSort objs ks true) = true /\
+  m_sort ks true objs = objs /\ m_sort ks true objs <> rev (m_sort ks false objs).
+Proof. exact reverse_not_reversed_sort. Qed.
+Print Assumptions C16_sort_reverse_is_not_reversed_sort.
+
+(* get / select with several types: membership of the lower-cased type in the lower-cased tuple; a str request is the
+   one-element tuple; equality, so only the SET of requested types matters (order, repetitions, list or tuple do not) *)
+Theorem C16_matches_tuple_membership : forall x s, mget k_type x = PStr s ->
+  (forall l, matches (TMany l) x = true <-> In (lower s) (map lower l)) /\
+  (forall u, matches (TOne u) x = matches (TMany [u]) x) /\
+  (forall u, matches (TOne u) x = true <-> lower s = lower u) /\
+  (forall l1 l2, (forall u, In u (map lower l1) <-> In u (map lower l2)) -> matches (TMany l1) x = matches (TMany l2) x).
+Proof. exact matches_tuple. Qed.
+Print Assumptions C16_matches_tuple_membership.
+
+Theorem C16_matching_is_not_containment : exists x y u, wf_C16 (RGet [x; y] (TOne u)) = true /\
+  (exists s, mget k_type x = PStr s /\ is_infix (lower s) (lower u) = true) /\
+  (exists s, mget k_type y = PStr s /\ is_infix (lower s) (lower u) = true) /\
+  matches (TOne u) x = false /\ matches (TOne u) y = false /\ m_get (TOne u) [x; y] = Ok None /\
+  m_select (TMany [u; u]) [x; y] = Ok [].
+Proof. exact matching_not_containment. Qed.
+Print Assumptions C16_matching_is_not_containment.
+
+(* str containment as used by in / lowerin / contains *)
+Theorem C16_containment_spec : forall a b,
+  (is_prefix a b = true <-> exists q, b = a ++ q) /\ (is_infix a b = true <-> exists p q, b = p ++ a ++ q).
+Proof. exact (fun a b => conj (is_prefix_spec a b) (is_infix_spec a b)). Qed.
+Print Assumptions C16_containment_spec.
+
+Theorem C16_in_operators_meaning :
+  (forall a l, apply_op OIn a (FL l) = Ok (existsb (pv_eqb a) l)) /\
+  (forall a l, apply_op OIn a (FL l) = Ok true <-> In a l) /\
+  (forall t s, apply_op OIn (PStr t) (FV (PStr s)) = Ok (is_infix t s)) /\
+  (forall t s, apply_op OLowerin (PStr t) (FV (PStr s)) = Ok (is_infix (lower t) s)) /\
+  (forall t l, apply_op OLowerin (PStr t) (FL l) = Ok (existsb (pv_eqb (PStr (lower t))) l)) /\
+  (forall t s, apply_op OContains (PStr s) (FV (PStr t)) = Ok (is_infix t s)) /\
+  (forall t v, apply_op OLowereq (PStr t) (FV v) = Ok (pv_eqb (PStr (lower t)) v)).
+Proof. exact in_ops_meaning. Qed.
+Print Assumptions C16_in_operators_meaning.
+
+(* a missing key and a key bound to None cannot be told apart by any condition *)
+Theorem C16_missing_key_reads_none : forall k x y c,
+  ((assoc k (emeta x) = None \/ assoc k (emeta x) = Some PNone) -> mget k x = PNone) /\
+  ((forall key, getv key x = getv key y) -> cond_eval c x = cond_eval c y).
+Proof. exact (fun k x y c => conj (missing_reads_none k x) (cond_sees_getv c x y)). Qed.
+Print Assumptions C16_missing_key_reads_none.
+
+(* conditions are combined with AND: their order does not matter, and filtering in two goes equals filtering once *)
+Theorem C16_filter_conditions_commute : forall conds conds' c1 c2 objs,
+  (Permutation conds conds' -> filter (holds_all conds) objs = filter (holds_all conds') objs) /\
+  filter (holds_all (c1 ++ c2)) objs = filter (holds_all c2) (filter (holds_all c1) objs).
+Proof. exact (fun conds conds' c1 c2 objs => conj (filter_conds_perm conds conds' objs) (filter_app_conds c1 c2 objs)). Qed.
+Print Assumptions C16_filter_conditions_commute.
+
+(* the in-place forms leave in the receiver exactly what the not-in-place forms return (which leave the receiver alone) *)
+Theorem C16_inplace_refines : forall conds objs l b code, m_filter conds objs = Ok l -> N.ltb code 4 = true ->
+  m_filter_method false conds objs = Ok (l, objs) /\ m_filter_method true conds objs = Ok (l, l) /\
+  step_next (HFilter true conds) objs = l /\ step_next (HFilter false conds) objs = objs /\
+  step_next (HSetop (code + 8) b) objs = m_setop code objs b /\ m_setop (code + 8) objs b = m_setop code objs b.
+Proof. exact inplace_refines. Qed.
+Print Assumptions C16_inplace_refines.
+
+(* basket.fts = fs on a basket whose sequences hold no features: attached features + features whose seqid no sequence has
+   = fs up to order (nothing lost, nothing attached twice) *)
+Theorem C16_attach_partition : forall seqs fs, (forall s, In s seqs -> snd s = []) ->
+  Permutation (concat (m_attach false seqs fs) ++
+               filter (fun f => negb (existsb (pv_eqb (mget k_seqid f)) (map fst seqs))) fs) fs.
+Proof. exact attach_partition. Qed.
+Print Assumptions C16_attach_partition.
+
+(* ... and, with or without add, a sequence only ever receives given features whose seqid equals its id *)
+Theorem C16_attach_member : forall add seqs fs,
+  length (m_attach add seqs fs) = length seqs /\
+  forall i sid old g, nth_error seqs i = Some (sid, old) -> nth_error (m_attach add seqs fs) i = Some g ->
+  forall f, In f g -> In f old \/ (In f fs /\ mget k_seqid f = sid).
+Proof. exact attach_member_m. Qed.
+Print Assumptions C16_attach_member.
+
+(* add_fts: a receiving sequence ends up with the stable default-order sort of its old features followed by the new ones *)
+Theorem C16_add_fts_sorted : forall old g,
+  attach_new true old g = isort (key_le KDefault) (old ++ g) /\
+  Permutation (attach_new true old g) (old ++ g) /\
+  StronglySorted (fun x y => key_le KDefault x y = true) (attach_new true old g) /\
+  (forall a, filter (eqv (key_le KDefault) a) (attach_new true old g) = filter (eqv (key_le KDefault) a) (old ++ g)).
+Proof. exact add_fts_sorted. Qed.
+Print Assumptions C16_add_fts_sorted.
+
+(* a key string is split like str.split(): these three equations determine split_ws on every string *)
+Theorem C16_key_string_split :
+  split_ws [] = [] /\
+  (forall w, nows w = true -> nonempty w = true -> split_ws w = [w]) /\
+  (forall a sep b, is_ws sep = true -> split_ws (a ++ sep :: b) = split_ws a ++ split_ws b) /\
+  (forall s, keyfuncs (KsStr s) = map KMeta (split_ws s)).
+Proof. exact split_ws_spec. Qed.
+Print Assumptions C16_key_string_split.
+
+(* callables as keys (the family the harness hands in); a constant key leaves the order alone in both directions *)
+Theorem C16_callable_keys : forall x y r objs,
+  keyval KNegLen x = PInt (- elen x) /\ keyval KConst x = PInt 0 /\
+  (forall s t, mget s x = PStr t -> keyval (KLowerMeta s) x = PStr (lower t)) /\
+  (forall s v, keyval (KMetaOr s v) x = match assoc s (emeta x) with Some w => w | None => v end) /\
+  key_le KNegLen x y = negb (Z.ltb (elen x) (elen y)) /\
+  m_sort (KsOne KConst) r objs = objs.
+Proof. exact callable_keys. Qed.
+Print Assumptions C16_callable_keys.
+
+(* group keys / dict keys are compared with Python ==: 1 and '1', None and 'None' are different keys *)
+Theorem C16_key_identity :
+  (forall a b, pv_eqb a b = true <-> a = b) /\
+  (forall z s, pv_eqb (PInt z) (PStr s) = false /\ pv_eqb (PStr s) (PInt z) = false) /\
+  (forall s, pv_eqb PNone (PStr s) = false /\ pv_eqb (PStr s) PNone = false) /\
+  (forall l v, ~ In v l -> first_occ (l ++ [v]) = first_occ l ++ [v]).
+Proof. exact key_identity. Qed.
+Print Assumptions C16_key_identity.
+
+Theorem C16_setops_algebra : forall a, forallb meta_ok a = true ->
+  op_and a a = a /\ op_or a a = a /\ op_sub a a = [] /\ op_xor a a = [] /\
+  op_and a [] = [] /\ op_or a [] = a /\ op_sub a [] = a /\ op_xor a [] = a /\
+  op_and [] a = [] /\ op_sub [] a = [].
+Proof. exact setops_algebra. Qed.
+Print Assumptions C16_setops_algebra.
+
+(* the operator table regenerated from cane._filter (by probing every documented name) is the documented one *)
+Theorem C16_op_table_documented :
+  op_table = op_table_documented /\
+  (forall a b o, fop_of_code a = Some o -> fop_of_code b = Some o -> a = b).
+Proof. exact (conj op_table_is_documented fop_codes_injective). Qed.
+Print Assumptions C16_op_table_documented.
+
+(* requests sent to basket.fts (the joined feature lists of the sequences) answer sequence by sequence; BioSeq.add_fts is
+   add_fts for one sequence without the seqid test *)
+Theorem C16_basket_fts_getter : forall t ls old fs, forallb type_ok (m_basket_fts ls) = true ->
+  m_select t (m_basket_fts ls) = Ok (concat (map (filter (matches t)) ls)) /\
+  m_get t (m_basket_fts ls) = Ok (hd_error (concat (map (filter (matches t)) ls))) /\
+  m_seq_add_fts old fs = attach_new true old fs /\ m_seq_add_fts old fs = m_sort (KsOne KDefault) false (old ++ fs) /\
+  Permutation (m_seq_add_fts old fs) (old ++ fs).
+Proof.
+  exact (fun t ls old fs H => conj (proj1 (basket_fts_select t ls H)) (conj (proj2 (basket_fts_select t ls H)) (seq_add_fts_spec old fs))).
+Qed.
+Print Assumptions C16_basket_fts_getter.
+
+(* groupby PARTITIONS: the groups, read off in the order of the nested dicts, are a permutation of the input (every element
+   in exactly one group, with its multiplicity) *)
+Theorem C16_groupby_leaves_permutation : forall ks objs t, m_groupby ks objs = Ok t ->
+  Permutation (leaves t) objs /\ (objs <> [] -> leaves t = leaves (spec_tree (keyfuncs ks) objs)).
+Proof. exact groupby_leaves. Qed.
+Print Assumptions C16_groupby_leaves_permutation.
+
 (* non-vacuity *)
 Example C16_witness_filter :
   let xs := [Ft 0 [(0, 3)%Z] [(k_type, PStr (bs "CDS"%bs)); (bs "n"%bs, PInt 2)]; Ft 1 [(1, 9)%Z] [(bs "n"%bs, PInt 0)];
@@ -237,3 +402,26 @@ Example C16_witness_groupby_select_attach :
   map (map eidx) (attach_spec false [] [(PStr (bs "s1"%bs), []); (PStr (bs "s2"%bs), []); (PStr (bs "s1"%bs), [])]
                     xs) = [[0; 3]; [2]; []]%nat.
 Proof. exact (conj eq_refl (conj eq_refl (conj (conj eq_refl eq_refl) (conj eq_refl (conj eq_refl (conj eq_refl (conj eq_refl (conj eq_refl eq_refl)))))))). Qed.
+
+Example C16_witness_round6 :
+  let f0 := Ft 0 [(0, 3)%Z] [(k_type, PStr (bs "gene"%bs)); (k_seqid, PStr (bs "s1"%bs))] in
+  let f1 := Ft 1 [(2, 9)%Z] [(k_type, PStr (bs "pseudogene"%bs)); (k_seqid, PStr (bs "s2"%bs))] in
+  let f2 := Fm 2 [(5, 8)%Z; (1, 2)%Z] [(k_type, PStr (bs "Gene"%bs)); (k_seqid, PStr (bs "s1"%bs))] in
+  let f3 := Ft 3 [(0, 1)%Z] [(k_seqid, PInt 1)] in
+  let seqs := [(PStr (bs "s1"%bs), []); (PStr (bs "s2"%bs), []); (PStr (bs "1"%bs), [])] in
+  wf_C16 (RAttach false seqs [f0; f1; f2; f3]) = true /\ forallb (fun s => match snd s with [] => true | _ :: _ => false end) seqs = true /\
+  map (map eidx) (m_attach false seqs [f0; f1; f2; f3]) = [[0; 2]; [1]; []]%nat /\
+  forallb meta_ok [f0; f1; f2; f3] = true /\
+  wf_C16 (RSelect [f0; f1; f2; f3] (TMany [bs "GENE"%bs; bs "x"%bs])) = true /\
+  map eidx (filter (matches (TMany [bs "GENE"%bs; bs "x"%bs])) [f0; f1; f2; f3]) = [0; 2]%nat /\
+  map eidx (filter (matches (TOne (bs "PseudoGene"%bs))) [f0; f1; f2; f3]) = [1%nat] /\
+  wf_C16 (RSort [f0; f1; f2; f3] (KsTuple [KNegLen; KMetaOr (bs "q"%bs) (PInt 0)]) true) = true /\
+  map eidx (m_sort (KsTuple [KNegLen; KMetaOr (bs "q"%bs) (PInt 0)]) true [f0; f1; f2; f3]) = [3; 0; 1; 2]%nat /\
+  m_filter [(bs "type_lowerin"%bs, FV (PStr (bs "a pseudogene"%bs)))] [f0; f1; f2] = Ok [f0; f1; f2] /\
+  m_filter [(bs "type_in"%bs, FL [PStr (bs "pseudogene"%bs)])] [f0; f1; f2] = Ok [f1] /\
+  preorder (key_le KNegLen) /\ nows (bs "name"%bs) = true.
+Proof.
+  exact (conj eq_refl (conj eq_refl
+          (conj eq_refl (conj eq_refl (conj eq_refl (conj eq_refl (conj eq_refl (conj eq_refl (conj eq_refl (conj eq_refl
+          (conj eq_refl (conj (key_le_preorder KNegLen) eq_refl)))))))))))).
+Qed.
